@@ -193,6 +193,7 @@ class Obj(Shape):
     def make(self, mk, name, idx=None):
         # attributes may alias each other: 'same:<attr path>' handled by Alias
         o = SObj(self.cls, {})
+        o.from_shape = True          # describes only the attributes the contract talks about
         for k, s in self.attrs.items():
             if isinstance(s, Alias):
                 continue
